@@ -30,7 +30,7 @@ func Fn() int      { Calls = append(Calls, "Fn"); return 7 }
 func (t T) Meth() int { Calls = append(Calls, "Meth"); return 8 }
 
 var FV F = func() int { Calls = append(Calls, "FV"); return 9 }
-var Ch = func() chan int { c := make(chan int, 4); c <- 1; c <- 2; c <- 3; c <- 4; return c }()
+var Ch = func() chan int { c := make(chan int, 1<<16); for i := 0; i < 1<<16; i++ { c <- i }; return c }()
 
 var (
 	Num      = 5
@@ -55,7 +55,7 @@ var _ = fmt.Sprint
 # verdict: "ok" | "complex" (too complex: call/receive/func literal) | "iface" (interface type) | "unexported" | "typeerr-ok"
 N = lambda k, *cs: "( N %s %s )" % (k, " ".join(cs)) if cs else "( N %s )" % k
 ID, LIT = N("Ident"), N("BasicLit")
-CASES = [
+FIXED = [
     ("lit-int", "42", "int", LIT, "ok"),
     ("lit-str", '"s"', "string", LIT, "ok"),
     ("arith", "1 + 2*3", "int", N("BinaryExpr", LIT, N("BinaryExpr", LIT, LIT)), "ok"),
@@ -118,6 +118,80 @@ CASES = [
 ]
 
 
+# ---- random int-valued expressions: where in the tree the unsafe part sits must not matter -------------
+
+def _leaf(rng, unsafe):
+    if unsafe:
+        return rng.choice([
+            ("Fn()", "( C s %s )" % ID), ("<-Ch", "( U 1 %s )" % ID), ("len(Sl)", "( C b %s %s )" % (ID, ID)),
+            ("FV()", "( C n %s )" % ID), ("Val.Meth()", "( C s %s )" % N("SelectorExpr", ID, ID)),
+            ("func() int { return 1 }()", "( C s %s )" % N("FuncLit", N("FuncType"), N("BlockStmt"))),
+            ("cap(Sl)", "( C b %s %s )" % (ID, ID)), ("Ptr.Meth()", "( C s %s )" % N("SelectorExpr", ID, ID))])
+    return rng.choice([
+        ("42", LIT), ("Num", ID), ("Const", ID), ("Val.X", N("SelectorExpr", ID, ID)), ("Arr[1]", N("IndexExpr", ID, LIT)),
+        ('Mp["k"]', N("IndexExpr", ID, LIT)), ("Ptr.X", N("SelectorExpr", ID, ID)), ("Sl[2]", N("IndexExpr", ID, LIT)),
+        ("Nested.In.X", N("SelectorExpr", N("SelectorExpr", ID, ID), ID))])
+
+
+def _rand_expr(rng, depth, unsafe):
+    """-> (go text, VExpr); `unsafe`: exactly one unsafe leaf somewhere below"""
+    if depth == 0:
+        return _leaf(rng, unsafe)
+    form = rng.randrange(11)
+
+    def two():
+        # the unsafe part goes left or right; the other side is a safe expression that is itself a unary
+        # expression or a conversion as often as not (a later safe sibling must not launder an earlier unsafe one)
+        first = rng.random() < 0.5
+        a = _rand_expr(rng, depth - 1, unsafe and first)
+        b = _rand_expr(rng, depth - 1, unsafe and not first)
+        return a, b
+    if form == 0:
+        t, v = _rand_expr(rng, depth - 1, unsafe)
+        return "-" + ("(%s)" % t if t.startswith("-") else t), "( U 0 %s )" % (N("ParenExpr", v) if t.startswith("-") else v)
+    if form == 1:
+        t, v = _rand_expr(rng, depth - 1, unsafe)
+        return "(%s)" % t, N("ParenExpr", v)
+    if form == 2:
+        (ta, va), (tb, vb) = two()
+        return "%s %s %s" % (ta, rng.choice(["+", "*", "-", "|"]), tb), N("BinaryExpr", va, vb)
+    if form == 3:
+        t, v = _rand_expr(rng, depth - 1, unsafe)
+        return "int(MyInt(%s))" % t, "( C t %s %s )" % (ID, "( C t %s %s )" % (ID, v))
+    if form == 4:
+        (ta, va), (tb, vb) = two()
+        return "[]int{%s, %s}[%d]" % (ta, tb, rng.randrange(2)), N("IndexExpr", N("CompositeLit", N("ArrayType", ID), va, vb), LIT)
+    if form == 5:
+        t, v = _rand_expr(rng, depth - 1, unsafe)
+        return "T{X: %s}.X" % t, N("SelectorExpr", N("CompositeLit", ID, N("KeyValueExpr", ID, v)), ID)
+    if form == 6:
+        (ta, va), (tb, vb) = two()
+        return 'map[string]int{"a": %s, "b": %s}["a"]' % (ta, tb), N("IndexExpr", N("CompositeLit", N("MapType", ID, ID),
+                                                                                  N("KeyValueExpr", LIT, va), N("KeyValueExpr", LIT, vb)), LIT)
+    if form == 7:
+        (ta, va), (tb, vb) = two()
+        return "[2]int{%s, %s}[1]" % (ta, tb), N("IndexExpr", N("CompositeLit", N("ArrayType", LIT, ID), va, vb), LIT)
+    if form == 8:
+        t, v = _rand_expr(rng, depth - 1, unsafe)
+        return "(&T{X: %s}).X" % t, N("SelectorExpr", N("ParenExpr", "( U 0 %s )" % N("CompositeLit", ID, N("KeyValueExpr", ID, v))), ID)
+    if form == 9:
+        (ta, va), (tb, vb) = two()
+        # three siblings: unsafe one first or in the middle, a conversion / unary minus last
+        tc, vc = rng.choice([("int(MyInt(5))", "( C t %s %s )" % (ID, "( C t %s %s )" % (ID, LIT))), ("-1", "( U 0 %s )" % LIT), ("^Num", "( U 0 %s )" % ID)])
+        return "[]int{%s, %s, %s}[0]" % (ta, tb, tc), N("IndexExpr", N("CompositeLit", N("ArrayType", ID), va, vb, vc), LIT)
+    t, v = _rand_expr(rng, depth - 1, unsafe)
+    return "*(&[]int{%s}[0])" % t, N("StarExpr", N("ParenExpr", "( U 0 %s )" % N("IndexExpr", N("CompositeLit", N("ArrayType", ID), v), LIT)))
+
+
+def random_cases(rng, n):
+    out = []
+    for k in range(n):
+        unsafe = rng.random() < 0.6
+        t, v = _rand_expr(rng, rng.choice([1, 2, 2, 3]), unsafe)
+        out.append(("rand%d-%s" % (k, "unsafe" if unsafe else "safe"), t, "int", v, "complex" if unsafe else "ok"))
+    return out
+
+
 def qualify(expr, names):
     """spell a lib-scope expression from another package"""
     def rep(m):
@@ -142,6 +216,9 @@ LIBNAMES = {"T", "MyInt", "F", "I", "Fn", "FV", "Ch", "Num", "Str", "Arr", "Sl",
 
 def run_c13(rep, tier):
     from .e2e_check import model_replies
+    import random
+    from .common import seed
+    CASES = FIXED + random_cases(random.Random(seed() * 7919 + 13), 70 if tier == "quick" else 600)
     ws = Workspace()
     dis, fails = [], []
     stats = {"cases": 0, "accepted": 0, "rejected": 0}
